@@ -2,10 +2,11 @@ package main
 
 import (
 	"bytes"
-	stdjson "encoding/json"
 	"encoding/hex"
+	stdjson "encoding/json"
 	"fmt"
 	"io"
+	"strconv"
 	"testing/iotest"
 
 	gojson "github.com/goccy/go-json"
@@ -129,10 +130,10 @@ func c17Dec(o *Out, lit string, toModel bool) {
 	}
 	// other positions and modes, valid literals only, against encoding/json
 	type S struct {
-		A string   `json:"a"`
-		Q string   `json:"q,string"`
-		T textCap  `json:"t"`
-		I interface{} `json:"i"`
+		A string         `json:"a"`
+		Q string         `json:"q,string"`
+		T textCap        `json:"t"`
+		I interface{}    `json:"i"`
 		M map[string]int `json:"m"`
 	}
 	docs := []struct{ pos, doc string }{
@@ -216,4 +217,240 @@ func runC17Decode(o *Out) {
 			c17Dec(o, s+it, true)
 		}
 	}
+}
+
+// ---------------------------------------------------------------------------
+// audit wave 6: additional strata (see the notes of audit A6)
+// ---------------------------------------------------------------------------
+
+// c17QuoteAgain writes a JSON string literal whose value is the text inner (itself a
+// JSON string literal): the payload of a ,string member.  unicode selects the " /
+// \ spelling of the two characters that have to be escaped.
+func c17QuoteAgain(inner string, unicode bool) string {
+	var sb []byte
+	sb = append(sb, '"')
+	for i := 0; i < len(inner); i++ {
+		switch c := inner[i]; {
+		case c == '"' && unicode:
+			sb = append(sb, `"`...)
+		case c == '\\' && unicode:
+			sb = append(sb, `\`...)
+		case c == '"' || c == '\\':
+			sb = append(sb, '\\', c)
+		default:
+			sb = append(sb, c)
+		}
+	}
+	return string(append(sb, '"'))
+}
+
+type c17DecMode struct {
+	name string
+	f    func([]byte, interface{}) error
+}
+
+var c17DecModes = []c17DecMode{{"Unmarshal", gojson.Unmarshal}, {"Decoder", streamUnmarshal(false)}, {"Decoder/1-byte reader", streamUnmarshal(true)}}
+
+// positions the older list leaves out: the ,string payload (named in the property), a
+// key of an object decoded into interface{}, a pointer member, a named string type and
+// a slice element; encoding/json is the oracle, in the three modes.
+type c17S2 struct {
+	Q  string      `json:"q,string"`
+	QP *string     `json:"qp,string"`
+	I  interface{} `json:"i"`
+	P  *string     `json:"p"`
+	N  c17Named    `json:"n"`
+	L  []string    `json:"l"`
+	K  map[c17TextM]int
+}
+
+func c17DecMorePositions(o *Out, lit string, variant int, modes []c17DecMode) {
+	q := c17QuoteAgain(`"`+lit+`"`, variant%2 == 1)
+	docs := []struct{ pos, doc string }{
+		{"stringtag", `{"q":` + q + `}`},
+		{"ptrstringtag", `{"qp":` + q + `}`},
+		{"ifacekey", `{"i":{"` + lit + `":"` + lit + `"}}`},
+		{"ptr+named+slice", `{"p":"` + lit + `","n":"` + lit + `","l":["` + lit + `","x","` + lit + `"]}`},
+		{"textkey", `{"K":{"` + lit + `":1}}`},
+	}
+	for _, d := range docs {
+		var w c17S2
+		werr := stdjson.Unmarshal([]byte(d.doc), &w)
+		ws, _ := stdjson.Marshal(w)
+		for _, m := range modes {
+			var g c17S2
+			gerr := safeUnmarshal(m.f, []byte(d.doc), &g)
+			gs, _ := stdjson.Marshal(g)
+			o.count("decode_more_position_cases", 1)
+			if (gerr != nil) != (werr != nil) || (gerr == nil && !bytes.Equal(gs, ws)) {
+				o.violation("C17", "string literal decoded differently from encoding/json", map[string]string{
+					"position": d.pos, "mode": m.name, "doc": fmt.Sprintf("%q", d.doc), "impl": fmt.Sprintf("err=%v %s", gerr, gs), "oracle": fmt.Sprintf("err=%v %s", werr, ws)})
+			}
+		}
+	}
+}
+
+// c17TokenSeq: the literal as object key and as array element, token by token
+func c17TokenSeq(o *Out, lit string) {
+	doc := []byte(`{"` + lit + `":["` + lit + `"]}`)
+	seq := func(next func() (interface{}, error)) string {
+		var sb []byte
+		for i := 0; i < 16; i++ {
+			t, err := next()
+			if err != nil {
+				sb = append(sb, fmt.Sprintf("|err=%v", err == io.EOF)...)
+				break
+			}
+			sb = append(sb, fmt.Sprintf("|%T %q", t, fmt.Sprint(t))...)
+		}
+		return string(sb)
+	}
+	for _, one := range []bool{false, true} {
+		var r io.Reader = bytes.NewReader(doc)
+		if one {
+			r = iotest.OneByteReader(r)
+		}
+		gd := gojson.NewDecoder(r)
+		var got string
+		if err := safeCall(func() error { got = seq(func() (interface{}, error) { return gd.Token() }); return nil }); err != nil {
+			got = err.Error()
+		}
+		wd := stdjson.NewDecoder(bytes.NewReader(doc))
+		want := seq(func() (interface{}, error) { return wd.Token() })
+		o.count("token_sequence_cases", 1)
+		if got != want {
+			o.violation("C17", "Token() sequence with the literal as key and element differs from encoding/json",
+				map[string]string{"doc": fmt.Sprintf("%q", doc), "onebyte": fmt.Sprint(one), "impl": got, "oracle": want})
+		}
+	}
+}
+
+// raw bytes that are not UTF-8 inside a literal (a valid JSON text for encoding/json,
+// which reads each as U+FFFD).  Unmarshal keeps such bytes for string, interface{} and
+// map-key destinations: recorded as BufferKeepsInvalidUTF8 under C09, so those
+// position/mode pairs are left to C09 and only counted here; the Decoder and the
+// TextUnmarshaler payload (unquoteBytes, both modes) are compared.
+var c17RawInvalid = []string{"\xff", "\xc3", "\xc3(", "\xe2\x82", "\xe2\x82x", "\xed\xa0\x80", "\xf4\x90\x80\x80", "\xc0\x80", "\xf0\x9f\x98", "\x80", "\xbf\xbf",
+	"\xef\xbf", "\xef\xbf\xbd", "\xef\xbf\xbe", "\xe2\x80\xa8", "\xf8\x88\x80\x80\x80"}
+
+func c17DecInvalidUTF8(o *Out) {
+	ctx := []string{"", "a", "\\n", "\\u00e9", "\\ud83d\\ude00", "é", "\\ud800", "abcdefgh", "\\\\"}
+	for _, raw := range c17RawInvalid {
+		for _, pre := range ctx {
+			for _, post := range ctx {
+				lit := pre + raw + post
+				if !stdjson.Valid([]byte(`"` + lit + `"`)) {
+					continue
+				}
+				type S struct {
+					A string         `json:"a"`
+					T textCap        `json:"t"`
+					I interface{}    `json:"i"`
+					M map[string]int `json:"m"`
+				}
+				docs := []struct{ pos, doc string }{
+					{"field", `{"a":"` + lit + `"}`}, {"iface", `{"i":"` + lit + `"}`}, {"mapkey", `{"m":{"` + lit + `":1}}`}, {"text", `{"t":"` + lit + `"}`}}
+				for _, d := range docs {
+					var w S
+					werr := stdjson.Unmarshal([]byte(d.doc), &w)
+					ws, _ := stdjson.Marshal(w)
+					for mi, m := range c17DecModes {
+						if mi == 0 && d.pos != "text" {
+							o.count("invalid_utf8_buffer_mode_left_to_C09", 1)
+							continue
+						}
+						var g S
+						gerr := safeUnmarshal(m.f, []byte(d.doc), &g)
+						gs, _ := stdjson.Marshal(g)
+						o.count("invalid_utf8_decode_cases", 1)
+						if (gerr != nil) != (werr != nil) || !bytes.Equal(gs, ws) {
+							o.violation("C17", "literal with bytes that are not UTF-8 decoded differently from encoding/json", map[string]string{
+								"position": d.pos, "mode": m.name, "doc": fmt.Sprintf("%q", d.doc), "impl": fmt.Sprintf("err=%v %s", gerr, gs), "oracle": fmt.Sprintf("err=%v %s", werr, ws)})
+						}
+					}
+				}
+			}
+		}
+	}
+}
+
+// long literals: hundreds of escapes in one literal (each one shifts the rest of the
+// window in stream mode and moves the write pointer in buffer mode), lengths beyond the
+// first stream windows, in every position and mode
+func c17DecLong(o *Out) {
+	var valid []string
+	for _, it := range c17Items {
+		if stdjson.Valid([]byte(`"` + it + `"`)) {
+			valid = append(valid, it)
+		}
+	}
+	n := 60
+	maxItems := 1200
+	if o.tier == "thorough" {
+		n, maxItems = 150, 2000
+	}
+	for i := 0; i < n; i++ {
+		k := 30 + o.rng.Intn(maxItems)
+		if i%4 == 0 {
+			k = 30 + o.rng.Intn(120)
+		}
+		var sb []byte
+		plainRun := o.rng.Intn(3) == 0
+		for j := 0; j < k; j++ {
+			if plainRun && o.rng.Intn(4) != 0 {
+				sb = append(sb, "abcdefghijklmnopqrstuvwxyz"[o.rng.Intn(26)])
+				continue
+			}
+			sb = append(sb, valid[o.rng.Intn(len(valid))]...)
+		}
+		lit := string(sb)
+		o.hist("long_literal_bytes", strconv.Itoa(len(lit)/512*512)+"+")
+		c17Dec(o, lit, false)
+		c17DecMorePositions(o, lit, i, c17DecModes)
+		c17TokenSeq(o, lit)
+		o.count("long_literals", 1)
+	}
+}
+
+func c17DecStrata(o *Out) {
+	// the positions the older list leaves out, for every valid literal of the enumeration up to two
+	// items (and a sample of the three-item ones), and the token sequences
+	n := len(c17Items)
+	cnt := 0
+	var rec func(prefix string, d int)
+	rec = func(prefix string, d int) {
+		if stdjson.Valid([]byte(`"` + prefix + `"`)) {
+			cnt++
+			c17DecMorePositions(o, prefix, cnt, c17DecModes)
+			c17TokenSeq(o, prefix)
+		}
+		if d == 0 {
+			return
+		}
+		for i := 0; i < n; i++ {
+			rec(prefix+c17Items[i], d-1)
+		}
+	}
+	rec("", 2)
+	nr := 5000
+	if o.tier == "thorough" {
+		nr = 100000
+	}
+	for i := 0; i < nr; i++ {
+		k := 3 + o.rng.Intn(4)
+		lit := ""
+		for j := 0; j < k; j++ {
+			lit += c17Items[o.rng.Intn(n)]
+		}
+		if stdjson.Valid([]byte(`"` + lit + `"`)) {
+			cnt++
+			c17DecMorePositions(o, lit, cnt, c17DecModes)
+			if i%4 == 0 {
+				c17TokenSeq(o, lit)
+			}
+		}
+	}
+	o.count("decode_more_literals", int64(cnt))
+	c17DecInvalidUTF8(o)
+	c17DecLong(o)
 }
